@@ -295,11 +295,15 @@ class SecNode(object):
         except Exception as err:
             res['error'] = 'decode:' + err.__class__.__name__
             return res
-        for (name, cls, func) in (('bcb', BlockConfidentialityBlock, self.ctx.verify_bcb),
-                                  ('bib', BlockIntegrityBlock, self.ctx.verify_bib)):
+        for (name, cls) in (('bcb', BlockConfidentialityBlock), ('bib', BlockIntegrityBlock)):
             for blk in list(ctr.block_type(cls)):
                 try:
-                    val = func(ctr, blk)
+                    # context dispatch as in Bpsec._verify_bcb / _verify_bib
+                    ctx = self.app._contexts.get(blk.payload.context_id)
+                    if ctx is None:
+                        val = UNKNOWN_SEC
+                    else:
+                        val = (ctx.verify_bcb if name == 'bcb' else ctx.verify_bib)(ctr, blk)
                     res[name].append(None if val is None else int(val))
                 except Exception as err:
                     res[name].append('exc:' + err.__class__.__name__)
@@ -670,9 +674,9 @@ def covered_view(raw, sec_type):
                     view['protected'] = msg[0]
                     if code in (17, 18, 97):
                         view['tag'] = msg[3]
-                        view['keyinfo'] = [msg[1], msg[4:], addl_un, msg[2]]
+                        view['keyinfo'] = [msg[1], msg[4:], addl_un, msg[2], asb['flags'], asb['params'] is None]
                     else:
-                        view['keyinfo'] = [msg[1], msg[3:], addl_un, msg[2]]
+                        view['keyinfo'] = [msg[1], msg[3:], addl_un, msg[2], asb['flags'], asb['params'] is None]
                 except Exception:
                     view['code'] = ('undecodable', code)
             views[(ordinal, ix)] = view
